@@ -19,11 +19,13 @@ def main():
     ap.add_argument("--tier", default="quick")
     ap.add_argument("--src", default=None)
     ap.add_argument("--seed", default="1")
+    ap.add_argument("--round", default="1")
     ap.add_argument("--no-demo", action="store_true")
     ap.add_argument("--no-baseline", action="store_true")
     a = ap.parse_args()
-    src = a.src or f"/tmp/seed_{a.prop}/_seed"
-    sid = f"{a.prop}_{a.which}"
+    wt = f"/tmp/seed_{a.prop}" if a.round == "1" else f"/tmp/seed{a.round}_{a.prop}"
+    src = a.src or f"{wt}/_seed"
+    sid = f"{a.prop}_{a.which}" if a.round == "1" else f"{a.prop}_r{a.round}{a.which}"
     dst = os.path.join(HERE, "seeded", sid)
     os.makedirs(dst, exist_ok=True)
     if os.path.exists(os.path.join(src, f"patch_{a.which}.diff")):
@@ -34,7 +36,6 @@ def main():
     props = a.props or a.prop
     tmp = f"/tmp/seedres_{sid}.json"
     # the demonstration runs in the author's own scratch worktree (demos assert that path); clean tree, then patched tree
-    wt = f"/tmp/seed_{a.prop}"
     env = dict(os.environ, PYTHONPATH=wt, OMP_NUM_THREADS="1", OPENBLAS_NUM_THREADS="1", MKL_NUM_THREADS="1")
     demo = {}
     if os.path.isdir(wt) and not a.no_demo:
